@@ -176,8 +176,8 @@ def getHeaderDirectChildren (p : Idx) (name : Name) (limit : Int) : Idx × Excep
     let rawLinks := directQuery p.rows prefix_ true rootDepth limit
     let (p, linkHeaders) := retargetLinks p rawLinks
     let outs := (nameHeaders ++ linkHeaders).filter (notSelf name)
-    if limit ≤ 0 || (outs.length : Int) < limit || outs.length == 0 then (p, .ok outs)
-    else (p, .ok (outs.take (limit - 1).toNat))
+    (p, .ok (if limit ≤ 0 || (outs.length : Int) < limit || outs.length == 0 then outs
+             else outs.take (limit - 1).toNat))
 
 def deleteHeader (p : Idx) (name : Name) (lkRecd lkBlk : Int) : Idx × Except Err Row :=
   let (p, n) := sanitize p name
